@@ -331,21 +331,40 @@ def movFromElectron (cfg : Cfg) (tg : List Int) (pre : List Instr) (x : Instr) :
     | .reg r0 :: _ => win cfg tg r0 pre == some 0
     | _ => false)
 
-/-- the condition on the instruction at the head of `post`, given the reversed prefix `pre` -/
-def qstaticAt (cfg : Cfg) (tg : List Int) (pre : List Instr) (x : Instr) : Bool :=
+/-- every register `get_unused_register` hands out at a two-qubit gate of `S` (the only registers an
+expansion can write) -/
+def scratchRegs (cfg : Cfg) (S : List Instr) : List Reg :=
+  (List.range S.length).filterMap (fun p =>
+    match S[p]? with
+    | some x =>
+      if isGate2 cfg x then
+        match getUnused ((S.take (p + 1)).flatMap topRegs) with
+        | .ok r => some r
+        | .error _ => none
+      else none
+    | none => none)
+
+/-- the condition on the instruction at the head of `post`, given the reversed prefix `pre`; `sc` are
+the registers the pass may borrow somewhere in the program. A Q register named by `x` must be inside a
+window, or — if `x` is not a gate — be a register the pass never borrows (whoever wrote it: `load`,
+`add`, …: both programs then hold the same value in it). -/
+def qstaticAt (cfg : Cfg) (tg : List Int) (sc : List Reg) (pre : List Instr) (x : Instr) : Bool :=
   (setOf cfg x).isSome ||
-    ((regsOf x).all (fun r => r.bank != bankQ || (win cfg tg r pre).isSome)
+    ((regsOf x).all (fun r => r.bank != bankQ || (win cfg tg r pre).isSome
+        || (!isGate cfg x && !sc.contains r))
       && (!isGate2 cfg x || (topRegs x).all (fun r => r.bank == bankQ) || movFromElectron cfg tg pre x))
 
-def qstaticFrom (cfg : Cfg) (tg : List Int) : List Instr → List Instr → Bool
+def qstaticFrom (cfg : Cfg) (tg : List Int) (sc : List Reg) : List Instr → List Instr → Bool
   | _, [] => true
-  | pre, x :: post => qstaticAt cfg tg pre x && qstaticFrom cfg tg (x :: pre) post
+  | pre, x :: post => qstaticAt cfg tg sc pre x && qstaticFrom cfg tg sc (x :: pre) post
 
-/-- **QStatic**: every instruction other than `set` reads Q registers only inside a window opened
-by a `set` of that register (straight-line from the `set`, no intervening write, no branch target
-in between), and two-qubit gates name Q registers — except a `mov` out of a register just `set`
-to 0 (the SDK's multi-pair keep). This is the shape the SDK emits (`set Q0 <id>` immediately before
-every use). -/
-def QStatic (cfg : Cfg) (S : List Instr) : Bool := qstaticFrom cfg (targets cfg S) [] S
+/-- **QStatic**: every GATE reads its Q registers inside a window opened by a `set` of that register
+(straight-line from the `set`, no intervening write, no branch target in between), and two-qubit
+gates name Q registers — except a `mov` out of a register just `set` to 0 (the SDK's multi-pair
+keep); any other instruction except `set` reads a Q register inside such a window or reads one the
+pass never borrows. This is the shape the SDK emits (`set Q0 <id>` immediately before every use),
+plus Q registers written by `load`/`add`/… as long as they do not reach a gate (that is F10). -/
+def QStatic (cfg : Cfg) (S : List Instr) : Bool :=
+  qstaticFrom cfg (targets cfg S) (scratchRegs cfg S) [] S
 
 end NQ.Tr
